@@ -407,6 +407,9 @@ func checkC09(raw json.RawMessage) (ev.Result, error) {
 				if x.ld.Nil && !attached {
 					return res, fmt.Errorf("%s: the %s load returned nil, but no filter was attached to its thread", desc, x.who)
 				}
+				if !x.ld.Nil && attached {
+					return res, fmt.Errorf("%s: the %s load returned an error (%s), but a filter was attached to its thread: the failed load left a filter behind", desc, x.who, x.ld.Err)
+				}
 				want := append([]bool(nil), prev.denied[x.th]...)
 				if attached {
 					for j := range want {
@@ -503,8 +506,14 @@ func checkC09(raw json.RawMessage) (ev.Result, error) {
 			if op.Kind == "allow-only" || op.Kind == "log-only" {
 				res.Classes = append(res.Classes, "attached:policy-that-denies-nothing")
 			}
-			if !ld.Nil {
-				res.Classes = append(res.Classes, "attached-but-error-returned(no-claim)")
+			if !ld.Nil && op.Flag&0x8 != 0 {
+				// SECCOMP_FILTER_FLAG_NEW_LISTENER (not a flag the library names): the kernel attaches the filter and returns a
+				// descriptor, a positive number, which the library reports as a refused thread-sync. No claim.
+				res.Classes = append(res.Classes, "attached-but-error-returned(listener-flag,no-claim)")
+			} else if !ld.Nil {
+				// otherwise the kernel either attaches a filter or reports an error, never both: a filter next to an error was
+				// attached by a call whose result the library did not report ("failed loads leave none behind")
+				return res, fmt.Errorf("%s returned an error (%s), but a filter was attached to the calling thread (Seccomp_filters %d -> %d): the failed load left a filter behind", desc, ld.Err, before.Filters, after.Filters)
 			}
 			want := deniedVector(op)
 			for j := range want {
